@@ -161,28 +161,58 @@ def case_outward_quad(ctx):
 
 
 def case_selection(ctx, kind):
-    """point-mask restriction selects exactly the faces all of whose points satisfy the mask (integer logic)"""
+    """point-mask restriction selects exactly the surface faces all of whose points satisfy the mask (integer logic).  The oracle
+    is geometric and independent of the library's face tables: on an axis-aligned mesh a face of a cell is the set of the
+    cell's points on the minimal / maximal coordinate plane of the cell along one axis (2, 3, 3, 4, 8, 9 points for
+    quad, quad8, quad9, hexahedron, hexahedron20, hexahedron27)."""
     with ctx.concrete():
-        if kind == "quad":
-            m = fem.Rectangle(n=(4, 3))
-            R = fem.RegionQuadBoundary
-        else:
-            m = fem.Cube(n=(3, 3, 2))
-            R = fem.RegionHexahedronBoundary
-        full = R(m)
-        masks = [m.points[:, 0] == 0, m.points[:, 1] == 1, (m.points[:, 0] == 0) | (m.points[:, 1] == 0), m.points[:, 0] >= 0.5]
-        ok = True
-        for mk in masks:
-            sel = R(m, mask=mk)
-            faces_all = full.mesh.cells_faces
-            want = sorted(tuple(sorted(f)) for f in faces_all if all(mk[p] for p in f))
-            got = sorted(tuple(sorted(f)) for f in sel.mesh.cells_faces)
-            ok = ok and want == got
+        base2, base3 = fem.Rectangle(n=(4, 3)), fem.Cube(n=(3, 3, 2))
+        m, R = {
+            "quad": (base2, fem.RegionQuadBoundary),
+            "quad8": (base2.add_midpoints_edges(), fem.RegionQuadraticQuadBoundary),
+            "quad9": (base2.add_midpoints_edges().add_midpoints_faces(), fem.RegionBiQuadraticQuadBoundary),
+            "hexahedron": (base3, fem.RegionHexahedronBoundary),
+            "hexahedron20": (base3.add_midpoints_edges(), fem.RegionQuadraticHexahedronBoundary),
+            "hexahedron27": (base3.add_midpoints_edges().add_midpoints_faces().add_midpoints_volumes(), fem.RegionTriQuadraticHexahedronBoundary),
+        }[kind]
+        X, d = m.points, m.dim
+        lo, hi = X.min(axis=0), X.max(axis=0)
+        faces = []  # surface faces as frozensets of point numbers
+        for cell in m.cells:
+            P = X[cell]
+            for ax in range(d):
+                for ext, glob in ((P[:, ax].min(), lo[ax]), (P[:, ax].max(), hi[ax])):
+                    if np.isclose(ext, glob):
+                        faces.append(frozenset(int(p_) for p_ in cell[np.isclose(P[:, ax], ext)]))
+        npf = {"quad": 2, "quad8": 3, "quad9": 3, "hexahedron": 4, "hexahedron20": 8, "hexahedron27": 9}[kind]
+        sizes_ok = all(len(f) == npf for f in faces)
+        rng = np.random.default_rng(11)
+        masks = [X[:, 0] == 0, X[:, 1] == 1, (X[:, 0] == 0) | (X[:, 1] == 0), X[:, 0] >= 0.5, np.ones(len(X), dtype=bool)]
+        # all points of the plane x = max except ONE point of one face, for every position of that point within the face
+        plane = np.isclose(X[:, 0], hi[0])
+        some = sorted(next(f for f in faces if all(plane[p_] for p_ in f)))
+        for p_ in some:
+            mk = plane.copy()
+            mk[p_] = False
+            masks.append(mk)
+        masks += [rng.uniform(size=len(X)) < 0.8 for _ in range(4)]
+        ok, detail = True, ""
+        for k, mk in enumerate(masks):
+            want = sorted(tuple(sorted(f)) for f in faces if all(mk[p_] for p_ in f))
+            try:
+                sel = R(m, mask=mk)
+                got = sorted(tuple(sorted(int(p_) for p_ in f)) for f in sel.mesh.cells_faces)
+            except Exception as e:  # noqa: BLE001  (an empty selection may be refused by the library: only then)
+                got = [] if not want else ["raised %s" % type(e).__name__]
+            if want != got:
+                ok = False
+                detail = detail or "mask %d: %d faces selected, %d expected" % (k, len(got), len(want))
         e3 = fem.RegionQuadBoundary(fem.Rectangle(n=3), ensure_3d=True) if kind == "quad" else None
         pad_ok = True
         if e3 is not None:
             pad_ok = e3.normals.shape[0] == 3 and np.all(e3.normals[2] == 0) and e3.dA.shape[0] == 3 and len(e3.tangents) == 2 and np.allclose(e3.tangents[1][2], 1)
-    ctx.check_concrete("mask_selects_faces_with_all_points_in_mask", ok)
+    ctx.check_concrete("faces_have_the_expected_number_of_points", sizes_ok)
+    ctx.check_concrete("mask_selects_surface_faces_with_all_points_in_mask", ok, detail)
     ctx.check_concrete("ensure_3d_padding", pad_ok)
     # keep one symbolic obligation so that the case has solver content: weights of the selection sum to its length
     s = ctx.var("s", 0.5, 2)
@@ -200,7 +230,11 @@ def cases(tier):
         ("scaled", case_scaled, {"kind": "hexahedron", "max_paths": 8}),
         ("scaled", case_scaled, {"kind": "hexahedron20", "max_paths": 8}),
         ("selection", case_selection, {"kind": "quad"}),
+        ("selection", case_selection, {"kind": "quad8"}),
+        ("selection", case_selection, {"kind": "quad9"}),
         ("selection", case_selection, {"kind": "hexahedron"}),
+        ("selection", case_selection, {"kind": "hexahedron20"}),
+        ("selection", case_selection, {"kind": "hexahedron27"}),
     ]
     if tier == "thorough":
         out += [
